@@ -54,6 +54,8 @@ def build_ops(tier="quick"):
     add(Op("curvature", lambda r: xs.curvature(r[0]), kind="stencil"))
     add(Op("hillshade", lambda r: xs.hillshade(r[0]), kind="stencil"))
     add(Op("hillshade_az100_alt30", lambda r: xs.hillshade(r[0], azimuth=100, angle_altitude=30), kind="stencil"))
+    add(Op("hillshade_az0_alt0", lambda r: xs.hillshade(r[0], azimuth=0, angle_altitude=0), kind="stencil"))
+    add(Op("hillshade_az360_alt90", lambda r: xs.hillshade(r[0], azimuth=360, angle_altitude=90), kind="stencil"))
     add(Op("mean_p1", lambda r: focal.mean(r[0]), kind="stencil"))
     add(Op("mean_p2", lambda r: focal.mean(r[0], passes=2), kind="stencil"))
     add(Op("mean_p3_excl", lambda r: focal.mean(r[0], passes=3, excludes=[np.nan, 3.0]), kind="stencil"))
@@ -104,6 +106,10 @@ def build_ops(tier="quick"):
     add(Op("generate_terrain_s3", lambda r: xs.generate_terrain(r[0], x_range=(10, 40), y_range=(-5, 20), seed=3,
                                                                zfactor=100), policy="terrain", kind="generator",
            float_only=True))
+    add(Op("generate_terrain_full_extent", lambda r: xs.generate_terrain(r[0], x_range=(100, 300), y_range=(0, 50), seed=0, zfactor=10,
+                                                                        full_extent=(0, 0, 400, 200)), policy="terrain",
+           kind="generator", float_only=True))
+    add(Op("perlin_s0_f31", lambda r: xs.perlin(r[0], freq=(3, 1), seed=0), policy="perlin", kind="generator", float_only=True))
     return ops
 
 
@@ -122,7 +128,7 @@ def build_families():
     F = {
         "savi": (2, [lambda r, s=sf: ms.savi(r[0], r[1], soil_factor=s) for sf in (0.25, 0.75, 1.0, 0.0)]),
         "evi": (3, [lambda r, g=g, c=c: ms.evi(r[0], r[1], r[2], c1=c, gain=g) for g, c in ((2.5, 6.0), (1.0, 6.0), (2.5, 7.5))]),
-        "hillshade": (1, [lambda r, a=a, t=t: xs.hillshade(r[0], azimuth=a, angle_altitude=t) for a, t in ((225, 25), (100, 30), (225, 60))]),
+        "hillshade": (1, [lambda r, a=a, t=t: xs.hillshade(r[0], azimuth=a, angle_altitude=t) for a, t in ((225, 25), (100, 30), (0, 0), (225, 60))]),
         "mean": (1, [lambda r, p=p, e=e: focal.mean(r[0], passes=p, excludes=e) for p, e in ((1, [np.nan]), (2, [np.nan]), (2, [-9999.0]), (1, [3.0]))]),
         "apply": (1, [lambda r: focal.apply(r[0], k33), lambda r: focal.apply(r[0], k35), lambda r: focal.apply(r[0], k33, _rng)]),
         "focal_stats": (1, [lambda r: focal.focal_stats(r[0], k33), lambda r: focal.focal_stats(r[0], k33, stats_funcs=["max", "min"]),
